@@ -1,4 +1,5 @@
 import StrettoModel.Proofs.Cache
+import StrettoModel.Props.C02
 /-!
 # C09 — Conditional writes: insert_if_present and UpdateValidator are honoured
 
@@ -111,9 +112,358 @@ theorem veto_preserves_processor (s : Store) (su : Nat → Nat → Bool) (k v cf
   · rfl
   · simp [hveto]
 
+-- over whole runs: where resident keys come from -----------------------------------------------------
+
+/-- the keys an action may bring into the cache: only an unconditional `insert` names one;
+`insert_if_present`, `get_mut` writes, lookups, removes and every processor / worker iteration name none -/
+def createOf : Act → List Nat
+  | .insert k _ _ _ _ _ _ false => [k]
+  | _ => []
+
+def createsOf (acts : List Act) : List Nat := (acts.map createOf).flatten
+
+/-- origin invariant: every resident key, and every key on its way to the store, was named by an
+unconditional `insert` -/
+structure Orig (U : List Nat) (c : Cache) : Prop where
+  resident : ∀ k e, c.store.items.get k = some e → k ∈ U
+  buffered : ∀ k cf cost v exp, Item.new k cf cost v exp ∈ c.buf ++ c.pendingSends → k ∈ U
+
+theorem orig_mono (U U' : List Nat) (c : Cache) (h : Orig U c) (hsub : ∀ p ∈ U, p ∈ U') : Orig U' c :=
+  ⟨fun k e he => hsub _ (h.resident k e he), fun k cf cost v exp hm => hsub _ (h.buffered k cf cost v exp hm)⟩
+
+/-- **the origin invariant is preserved by every step of every actor** -/
+theorem step_orig (su : Nat → Nat → Bool) (U : List Nat) (c c' : Cache) (a : Act)
+    (hs : c.step su a = some c') (h : Orig U c) : Orig (U ++ createOf a) c' := by
+  have hmono : Orig (U ++ createOf a) c := orig_mono U _ c h (fun p hp => by simp [hp])
+  cases a with
+  | insert k cf v cost ttl now coster only =>
+    simp only [Cache.step, Option.some.injEq] at hs; subst hs
+    unfold Cache.insert
+    split
+    · exact hmono
+    · unfold Cache.insertBody
+      simp only []
+      split
+      · exact hmono
+      · have hstore : ∀ j e, (c.store.tryUpdate su k v cf { d := ttl, created := now }).1.items.get j = some e →
+            ∃ e', c.store.items.get j = some e' := by
+          intro j e hje
+          unfold Store.tryUpdate at hje
+          cases hg : c.store.items.get k with
+          | none => simp only [hg] at hje; exact ⟨e, hje⟩
+          | some e0 =>
+            simp only [hg] at hje
+            split at hje
+            · exact ⟨e, hje⟩
+            · split at hje
+              · exact ⟨e, hje⟩
+              · simp only [KMap.get_set] at hje
+                split at hje
+                · rename_i hjk; subst hjk; exact ⟨e0, hg⟩
+                · exact ⟨e, hje⟩
+        have hres : ∀ j e, (c.store.tryUpdate su k v cf { d := ttl, created := now }).1.items.get j = some e →
+            j ∈ U ++ createOf (Act.insert k cf v cost ttl now coster only) := by
+          intro j e hje
+          obtain ⟨e', he'⟩ := hstore j e hje
+          simp [h.resident j e' he']
+        split
+        · split
+          · refine ⟨hres, ?_⟩
+            intro k' cf' cost' v' exp' hm
+            simp only [List.append_assoc, List.mem_append, List.mem_cons, List.not_mem_nil, or_false] at hm
+            rcases hm with hm | hm | hm
+            · exact hmono.buffered k' cf' cost' v' exp' (by simp [hm])
+            · cases hm
+            · exact hmono.buffered k' cf' cost' v' exp' (by simp [hm])
+          · exact ⟨hres, hmono.buffered⟩
+        · split
+          · exact hmono
+          · rename_i honly
+            split
+            · refine ⟨hmono.resident, ?_⟩
+              intro k' cf' cost' v' exp' hm
+              simp only [List.append_assoc, List.mem_append, List.mem_cons, List.not_mem_nil, or_false] at hm
+              rcases hm with hm | hm | hm
+              · exact hmono.buffered k' cf' cost' v' exp' (by simp [hm])
+              · cases hm
+                have : only = false := by simpa using honly
+                subst this; simp [createOf]
+              · exact hmono.buffered k' cf' cost' v' exp' (by simp [hm])
+            · exact ⟨by simpa using hmono.resident, by simpa using hmono.buffered⟩
+  | get k cf now =>
+    simp only [Cache.step, Option.some.injEq] at hs; subst hs
+    unfold Cache.get
+    split
+    · exact hmono
+    · simp only []
+      split <;> exact ⟨by simpa using hmono.resident, by simpa using hmono.buffered⟩
+  | getMut k cf now v =>
+    simp only [Cache.step, Option.some.injEq] at hs; subst hs
+    unfold Cache.getMutWrite
+    split
+    · exact hmono
+    · simp only []
+      split
+      · exact ⟨by simpa using hmono.resident, by simpa using hmono.buffered⟩
+      · refine ⟨?_, by simpa using hmono.buffered⟩
+        intro j e hje
+        simp only [Cache.met_store, Cache.ringPush_store] at hje
+        unfold Store.getMutWrite at hje
+        cases hl : c.store.lookup k cf now with
+        | none => simp only [hl] at hje; exact hmono.resident j e hje
+        | some e0 =>
+          simp only [hl, KMap.get_set] at hje
+          split at hje
+          · rename_i hjk; subst hjk
+            obtain ⟨he0, _, _⟩ := Store.lookup_some c.store j cf now e0 hl
+            exact hmono.resident j e0 he0
+          · exact hmono.resident j e hje
+  | remove k cf =>
+    simp only [Cache.step, Option.some.injEq] at hs; subst hs
+    unfold Cache.remove
+    split
+    · exact hmono
+    · simp only []
+      have hres : ∀ j e, (c.store.tryRemove k cf).1.items.get j = some e → c.store.items.get j = some e := by
+        intro j e hje
+        rw [Store.tryRemove_get] at hje
+        split at hje
+        · cases hje
+        · exact hje
+      have hbuf : ∀ (buf' pend' : List Item),
+          (∀ x, x ∈ buf' ++ pend' → x ∈ c.buf ++ c.pendingSends ∨ x = Item.delete k cf) →
+          ∀ k' cf' cost' v' exp', Item.new k' cf' cost' v' exp' ∈ buf' ++ pend' →
+            k' ∈ U ++ createOf (Act.remove k cf) := by
+        intro buf' pend' hsub k' cf' cost' v' exp' hm
+        rcases hsub _ hm with h1 | h1
+        · exact hmono.buffered k' cf' cost' v' exp' h1
+        · cases h1
+      cases hr : (c.store.tryRemove k cf).2 with
+      | none =>
+        simp only
+        split
+        · exact ⟨hmono.resident, hbuf _ _ (by intro x hx; simp only [List.mem_append, List.mem_singleton] at hx ⊢; rcases hx with (h1 | h1) | h1 <;> simp [h1])⟩
+        · exact ⟨hmono.resident, hbuf _ _ (by intro x hx; simp only [List.mem_append, List.mem_singleton] at hx ⊢; rcases hx with h1 | h1 | h1 <;> simp [h1])⟩
+      | some e0 =>
+        simp only
+        split
+        · exact ⟨fun j e hje => hmono.resident j e (hres j e hje), hbuf _ _ (by intro x hx; simp only [List.mem_append, List.mem_singleton] at hx ⊢; rcases hx with (h1 | h1) | h1 <;> simp [h1])⟩
+        · exact ⟨fun j e hje => hmono.resident j e (hres j e hje), hbuf _ _ (by intro x hx; simp only [List.mem_append, List.mem_singleton] at hx ⊢; rcases hx with h1 | h1 | h1 <;> simp [h1])⟩
+  | waitEnq id =>
+    simp only [Cache.step, Option.some.injEq] at hs; subst hs
+    unfold Cache.waitEnq
+    split
+    · exact hmono
+    · split
+      · refine ⟨hmono.resident, ?_⟩
+        intro k' cf' cost' v' exp' hm
+        simp only [List.append_assoc, List.mem_append, List.mem_cons, List.not_mem_nil, or_false] at hm
+        rcases hm with hm | hm | hm
+        · exact hmono.buffered k' cf' cost' v' exp' (by simp [hm])
+        · cases hm
+        · exact hmono.buffered k' cf' cost' v' exp' (by simp [hm])
+      · exact hmono
+  | clearReq id =>
+    simp only [Cache.step, Option.some.injEq] at hs; subst hs
+    unfold Cache.clearReq; split <;> exact ⟨hmono.resident, hmono.buffered⟩
+  | closeBegin id =>
+    simp only [Cache.step, Option.some.injEq] at hs; subst hs
+    unfold Cache.closeBegin; split <;> exact ⟨hmono.resident, hmono.buffered⟩
+  | updateMaxCost mc =>
+    simp only [Cache.step, Option.some.injEq] at hs; subst hs; exact ⟨hmono.resident, hmono.buffered⟩
+  | procItem est refills =>
+    simp only [Cache.step, Cache.procItem] at hs
+    split at hs
+    · cases hs
+    · split at hs
+      · cases hs
+      · rename_i it rest hb
+        simp only [Option.some.injEq] at hs; subst hs
+        simp only [createOf, List.append_nil]
+        have hf := admitPending_frame ({ c with buf := rest } : Cache)
+        have hpop : ∀ x, x ∈ (({ c with buf := rest } : Cache).admitPending).buf ++
+            (({ c with buf := rest } : Cache).admitPending).pendingSends → x ∈ c.buf ++ c.pendingSends := by
+          intro x hx
+          rw [admitPending_mem] at hx
+          rw [hb]
+          simp only [List.cons_append, List.mem_cons]
+          right; exact hx
+        have hhead : it ∈ c.buf ++ c.pendingSends := by rw [hb]; simp
+        have hbufH : ∀ (c1 : Cache) (it : Item), (c1.handleItem su est refills it).buf = c1.buf :=
+          fun c1 it => handleItem_buf c1 su est refills it
+        have hpendH : ∀ (c1 : Cache) (it : Item), (c1.handleItem su est refills it).pendingSends = c1.pendingSends := by
+          intro c1 it
+          cases it with
+          | wait w => rfl
+          | update k cost ext => simp [Cache.handleItem]
+          | delete k cf =>
+            simp only [Cache.handleItem]
+            cases (c1.store.tryRemove k cf).2 <;> (simp only; split <;> simp)
+          | new k cf cost v exp =>
+            simp only [Cache.handleItem]
+            split <;> (try rw [(evictVictims_spec _ _).2.2.1]) <;> (split <;> (try split) <;> simp)
+        refine ⟨?_, ?_⟩
+        · intro j e hje
+          cases it with
+          | wait w => exact h.resident j e (by simpa [Cache.handleItem, hf.1] using hje)
+          | update k cost ext => exact h.resident j e (by simpa [Cache.handleItem, hf.1] using hje)
+          | delete k cf =>
+            simp only [Cache.handleItem] at hje
+            have : (({ c with buf := rest } : Cache).admitPending.store.tryRemove k cf).1.items.get j = some e := by
+              cases hr : (({ c with buf := rest } : Cache).admitPending.store.tryRemove k cf).2 <;>
+                (simp only [hr] at hje; split at hje <;> simpa using hje)
+            rw [Store.tryRemove_get] at this
+            split at this
+            · cases this
+            · rw [hf.1] at this; exact h.resident j e this
+          | new k cf cost v exp =>
+            have hnew : k ∈ U := h.buffered k cf cost v exp hhead
+            simp only [Cache.handleItem] at hje
+            have hpre : ∀ (c2 : Cache), c2.store = ({ c with buf := rest } : Cache).admitPending.store ∨
+                c2.store = (({ c with buf := rest } : Cache).admitPending.store.tryInsert su k v cf exp) →
+                c2.store.items.get j = some e → j ∈ U := by
+              intro c2 hc2 hj2
+              rcases hc2 with hc2 | hc2
+              · rw [hc2, hf.1] at hj2; exact h.resident j e hj2
+              · rw [hc2] at hj2
+                rcases C02.tryInsert_get _ su k v cf exp j e hj2 with h1 | ⟨h1, _⟩
+                · rw [hf.1] at h1; exact h.resident j e h1
+                · subst h1; exact hnew
+            split at hje
+            · have hje' := C02.evictVictims_get _ _ j e hje
+              split at hje'
+              · split at hje'
+                · exact hpre _ (Or.inr (by simp)) hje'
+                · exact hpre _ (Or.inr (by simp)) hje'
+              · exact hpre _ (Or.inl (by simp)) hje'
+            · split at hje
+              · split at hje
+                · exact hpre _ (Or.inr (by simp)) hje
+                · exact hpre _ (Or.inr (by simp)) hje
+              · exact hpre _ (Or.inl (by simp)) hje
+        · intro k' cf' cost' v' exp' hm
+          rw [hbufH, hpendH] at hm
+          exact h.buffered k' cf' cost' v' exp' (hpop _ hm)
+  | procClear =>
+    simp only [Cache.step] at hs
+    obtain ⟨h1, h2, h3⟩ := C02.procClear_empty c c' hs
+    refine ⟨(fun j e hje => by rw [h1 j] at hje; cases hje), ?_⟩
+    intro k' cf' cost' v' exp' hm
+    rw [h2, h3] at hm
+    exact hmono.buffered k' cf' cost' v' exp' (by simp at hm; simp [hm])
+  | procTick now order =>
+    simp only [Cache.step, Cache.procTick] at hs
+    split at hs
+    · cases hs
+    · simp only [Option.some.injEq] at hs; subst hs
+      simp only [createOf, List.append_nil]
+      have hd := deliverEvictions_frame
+        ((({ c with store := { c.store with em := (c.store.em.tryCleanup now).1 } } : Cache).sweepKeys now order []).2.reverse)
+        (({ c with store := { c.store with em := (c.store.em.tryCleanup now).1 } } : Cache).sweepKeys now order []).1
+      have hk := sweepKeys_frame order ({ c with store := { c.store with em := (c.store.em.tryCleanup now).1 } } : Cache) now []
+      refine ⟨?_, ?_⟩
+      · intro j e hje
+        rw [hd.1] at hje
+        exact h.resident j e (by simpa using C02.sweepKeys_get order _ now [] j e hje)
+      · intro k' cf' cost' v' exp' hm
+        rw [hd.2.2.1, hd.2.2.2, hk.1] at hm
+        have hp : (({ c with store := { c.store with em := (c.store.em.tryCleanup now).1 } } : Cache).sweepKeys now order []).1.pendingSends = c.pendingSends := by
+          have : ∀ (keys : List (Nat × Nat)) (c0 : Cache) (acc : List CB), (c0.sweepKeys now keys acc).1.pendingSends = c0.pendingSends := by
+            intro keys
+            induction keys with
+            | nil => intro c0 acc; simp [Cache.sweepKeys]
+            | cons p rest ih =>
+              intro c0 acc
+              obtain ⟨k, cf⟩ := p
+              simp only [Cache.sweepKeys]
+              rw [ih]
+              unfold Cache.sweepOne
+              cases c0.store.expiration k with
+              | none => rfl
+              | some t => simp only; split
+                          · cases (c0.store.tryRemove k cf).2 <;> simp
+                          · rfl
+          exact this order _ []
+        rw [hp] at hm
+        exact h.buffered k' cf' cost' v' exp' hm
+  | procStop =>
+    simp only [Cache.step, Cache.procStop] at hs
+    split at hs
+    · cases hs
+    · simp only [Option.some.injEq] at hs; subst hs
+      refine ⟨hmono.resident, ?_⟩
+      intro k' cf' cost' v' exp' hm
+      simp only [List.nil_append] at hm
+      exact hmono.buffered k' cf' cost' v' exp' (by simp [hm])
+  | policyWorker =>
+    simp only [Cache.step, Cache.policyWorkerStep] at hs
+    cases hp : c.pq with
+    | nil => simp [hp] at hs
+    | cons b rest => simp only [hp, Option.map_some, Option.some.injEq] at hs; subst hs; exact ⟨hmono.resident, hmono.buffered⟩
+  | policyClose =>
+    simp only [Cache.step, Option.some.injEq] at hs; subst hs; exact ⟨hmono.resident, hmono.buffered⟩
+
+theorem exec_orig (su : Nat → Nat → Bool) (U : List Nat) (c : Cache) (acts : List Act)
+    (h : Orig U c) : Orig (U ++ createsOf acts) (Cache.run su c acts) := by
+  induction acts generalizing c U with
+  | nil => simpa [createsOf, Cache.run] using h
+  | cons a rest ih =>
+    simp only [Cache.run]
+    have hstep : Orig (U ++ createOf a) ((c.step su a).getD c) := by
+      cases hs : c.step su a with
+      | none => exact orig_mono U _ c h (fun p hp => by simp [hp])
+      | some c' => exact step_orig su U c c' a hs h
+    have := ih (U ++ createOf a) _ hstep
+    simpa [createsOf, List.append_assoc] using this
+
+/-- **insert_if_present never creates an entry — over whole histories**: after any sequence of actions
+of any actors from the builder's state (clients calling anything, in any interleaving with the
+processor, the sweeper and the policy worker), every resident key was named by an *unconditional*
+`insert` in that history. Whatever `insert_if_present` calls were made, at whatever point relative to
+buffered work, removes, expiry and clears: a key only ever written conditionally is not resident, is not
+on its way to the store, and no lookup returns anything for it. -/
+theorem only_unconditional_inserts_create (su : Nat → Nat → Bool) (cfg : Cfg) (maxCost : Int) (samples : Nat)
+    (acts : List Act) (k : Nat) (hk : k ∉ createsOf acts) :
+    (Cache.run su (Cache.init cfg maxCost samples) acts).store.items.get k = none ∧
+    (∀ cf cost v exp, Item.new k cf cost v exp ∉ (Cache.run su (Cache.init cfg maxCost samples) acts).buf) ∧
+    (∀ cf now, ((Cache.run su (Cache.init cfg maxCost samples) acts).get k cf now).2 = none) := by
+  have hp : Orig [] (Cache.init cfg maxCost samples) :=
+    ⟨(fun k e he => by simp [Cache.init, Store.empty] at he),
+     (fun k cf cost v exp hm => by simp [Cache.init] at hm)⟩
+  have ho := exec_orig su [] _ acts hp
+  simp only [List.nil_append] at ho
+  have hnone : (Cache.run su (Cache.init cfg maxCost samples) acts).store.items.get k = none := by
+    cases hg : (Cache.run su (Cache.init cfg maxCost samples) acts).store.items.get k with
+    | none => rfl
+    | some e => exact absurd (ho.resident k e hg) hk
+  refine ⟨hnone, ?_, ?_⟩
+  · intro cf cost v exp hm
+    exact hk (ho.buffered k cf cost v exp (by simp [hm]))
+  · intro cf now
+    cases hget : ((Cache.run su (Cache.init cfg maxCost samples) acts).get k cf now).2 with
+    | none => rfl
+    | some v =>
+      exfalso
+      unfold Cache.get at hget
+      split at hget
+      · cases hget
+      · simp only [Cache.ringPush_store] at hget
+        cases hl : (Cache.run su (Cache.init cfg maxCost samples) acts).store.lookup k cf now with
+        | none => simp [Store.get, hl] at hget
+        | some e =>
+          have he := (Store.lookup_some _ k cf now e hl).1
+          rw [hnone] at he; cases he
+
 -- non-vacuity -------------------------------------------------------------------------------
 def exCfg : Cfg := { itemSize := 56, ignoreInternal := false, bufCap := 4, ringCap := 2, pqCap := some 3, metricsOn := true }
 example : ((Cache.init exCfg 100 5).insert (fun _ _ => true) 1 0 7 1 0 10 0 true).2 = false := by decide
+/-- the hypothesis is met by histories that do write the key — conditionally only — and the conclusion is not
+trivially true of every key: an unconditional insert, applied, makes its key resident -/
+example : (1 : Nat) ∉ createsOf [.insert 1 0 7 1 0 10 0 true, .insert 2 0 8 1 0 10 0 false, .procItem (fun _ => 0) [],
+    .insert 1 0 9 1 0 11 0 true] := by decide
+example : ((Cache.run (fun _ _ => true) (Cache.init exCfg 100 5)
+    [.insert 1 0 7 1 0 10 0 true, .insert 2 0 8 1 0 10 0 false, .procItem (fun _ => 0) [],
+     .insert 1 0 9 1 0 11 0 true]).store.items.get 2).isSome = true := by decide
 
 end Stretto.C09
 
@@ -122,3 +472,5 @@ end Stretto.C09
 #print axioms Stretto.C09.iip_resident_is_update
 #print axioms Stretto.C09.veto_preserves
 #print axioms Stretto.C09.veto_preserves_processor
+#print axioms Stretto.C09.step_orig
+#print axioms Stretto.C09.only_unconditional_inserts_create
